@@ -148,6 +148,9 @@ impl Slatepack {
 		// Create encrypted metadata, which will be length prefixed
 		let bin_meta = SlatepackEncMetadataBin(self.encrypted_meta.clone());
 		let mut to_encrypt = byte_ser::to_bytes(&bin_meta).map_err(|_| Error::SlatepackSer)?;
+		// From here on the metadata lives in the encrypted payload only: don't keep a
+		// readable copy that the JSON form of the slatepack would carry in clear
+		self.encrypted_meta = default_enc_metadata();
 
 		if self.future_test_mode {
 			Slatepack::pad_test_data(&mut to_encrypt);
